@@ -106,6 +106,8 @@ def apply_prestate(w, opts, world, items):
             if k == "symlink_stale":
                 with open(target, "wb") as fh:
                     fh.write(b"PK\x03\x04 archived report %d" % i)
+                if i % 2 == 0:
+                    os.chmod(target, 0o444)  # filed away read-only: neither its bytes nor its mode are RP2's to change
             link = os.path.join(out, name)
             if not os.path.lexists(link):
                 os.symlink(os.path.relpath(target, out), link)
@@ -120,6 +122,8 @@ def apply_prestate(w, opts, world, items):
             if not os.path.lexists(link) and not os.path.lexists(target):
                 with open(target, "wb") as fh:
                     fh.write(b"PK\x03\x04 archived report (hard link) %d" % i)
+                if i % 2 == 1:
+                    os.chmod(target, 0o444)
                 os.link(target, link)
         elif k in ("stale_report", "readonly_stale", "bak"):
             os.makedirs(out, exist_ok=True)
